@@ -146,6 +146,18 @@ def _rec_header(plan, r, with_kid: bool):
     return h
 
 
+def allow_kw(plan, **extra):
+    """How the allow-list reaches the library: algorithms=, or - when the plan carries a caller-registered header parameter -
+    a registry that knows it."""
+    from joserfc import jwe
+    if plan.get("custom_header"):
+        from joserfc.registry import HeaderParameter
+        return {"registry": jwe.JWERegistry(header_registry={plan["custom_header"]: HeaderParameter("caller registered", "str")}, algorithms=ALL_NAMES, **extra)}
+    if extra:
+        return {"registry": jwe.JWERegistry(algorithms=ALL_NAMES, **extra)}
+    return {"algorithms": ALL_NAMES}
+
+
 def role_params(role, side: str, base=None):
     out = dict(base or {})
     if role and "ops" in role:
@@ -170,7 +182,7 @@ def jose_encrypt(plan, keymode: str = "attached", form: str = "dict", preset_epk
         h = _rec_header(plan, recs[0], keymode != "attached" and recs[0]["kid"] is not None)
         prot.update(h)
         keyarg = keys[0] if keymode == "attached" else KeySet(keys) if keymode == "keyset" else (lambda obj: keys[0])
-        return jwe.encrypt_compact(prot, pt, keyarg, algorithms=ALL_NAMES, sender_key=sender)
+        return jwe.encrypt_compact(prot, pt, keyarg, sender_key=sender, **allow_kw(plan))
     cls = jwe.FlattenedJSONEncryption if plan["ser"] == "flattened" else jwe.GeneralJSONEncryption
     aad = None if plan["aad_hex"] is None else bytes.fromhex(plan["aad_hex"])
     obj = cls(copy.deepcopy(plan["protected"]), pt, copy.deepcopy(plan["unprotected"]), aad)
@@ -183,7 +195,7 @@ def jose_encrypt(plan, keymode: str = "attached", form: str = "dict", preset_epk
             kcls = ECKey if r["key"]["kty"] == "EC" else OKPKey
             obj.recipients[-1].ephemeral_key = kcls.generate_key(gk.key_from_record(r["key"])["crv"], {"kid": "eph-1", "use": "enc"})
     keyarg = None if keymode == "attached" else KeySet(keys) if keymode == "keyset" else (lambda o: keys[[i for i, r in enumerate(recs) if (o.headers().get("kid") == r["kid"])][0]] if len(recs) > 1 else keys[0])
-    return jwe.encrypt_json(obj, keyarg, algorithms=ALL_NAMES, sender_key=sender)
+    return jwe.encrypt_json(obj, keyarg, sender_key=sender, **allow_kw(plan))
 
 
 def jose_private_keys(plan, form: str = "dict"):
@@ -198,12 +210,11 @@ def jose_decrypt(token, plan, mode: str = "all", form: str = "dict", index: int 
     keys = jose_private_keys(plan, form)
     sender = jkey(rk.public_of(gk.key_from_record(plan["sender"])), form, False, role_params(plan.get("role"), "dec")) if plan["sender"] else None
     if isinstance(token, (str, bytes)):
-        return jwe.decrypt_compact(token, keys[0], algorithms=ALL_NAMES, sender_key=sender)
+        return jwe.decrypt_compact(token, keys[0], sender_key=sender, **allow_kw(plan))
     if mode == "all":
         keyarg = keys[0] if len(keys) == 1 else KeySet(keys)
-        return jwe.decrypt_json(token, keyarg, algorithms=ALL_NAMES, sender_key=sender)
-    reg = jwe.JWERegistry(algorithms=ALL_NAMES, verify_all_recipients=False)
-    return jwe.decrypt_json(token, lambda o: keys[index], registry=reg, sender_key=sender)
+        return jwe.decrypt_json(token, keyarg, sender_key=sender, **allow_kw(plan))
+    return jwe.decrypt_json(token, lambda o: keys[index], sender_key=sender, **allow_kw(plan, verify_all_recipients=False))
 
 
 # ------------------------------------------------------------------ reference side
